@@ -664,8 +664,13 @@ func muxers() {
 
 // uaDecode writes b into a fresh user-auth tube, closes the writing side, and lets the real
 // GetInitMsg read the other end; what GetInitMsg left unread is the remainder
+// uaAlloc is what the process allocated while the last GetInitMsg call ran (creating the tube is
+// not the reader's doing and is kept out of the measurement)
+var uaAlloc uint64
+
 func uaDecode(b []byte) string {
 	muxers()
+	uaAlloc = 0
 	ct, err := muxC.CreateReliableTube(common.UserAuthTube)
 	for k := 0; err != nil && k < 400; k++ { // tube ids are reusable 4 RTT after a tube has closed
 		time.Sleep(50 * time.Millisecond)
@@ -691,7 +696,11 @@ func uaDecode(b []byte) string {
 	res := make(chan string, 1)
 	go func() {
 		res <- Guard(func() string {
+			var m0, m1 runtime.MemStats
+			runtime.ReadMemStats(&m0)
 			u := userauth.GetInitMsg(st)
+			runtime.ReadMemStats(&m1)
+			uaAlloc = m1.TotalAlloc - m0.TotalAlloc
 			r, _ := io.ReadAll(st)
 			return HexOrDash([]byte(u)) + " " + HexOrDash(r)
 		})
@@ -708,15 +717,19 @@ func uaDecode(b []byte) string {
 
 // ------------------------------------------------------------------ runner
 
-func allocClass(f func() string) string {
+func allocClass(what string, f func() string) string {
 	var a, b runtime.MemStats
 	runtime.ReadMemStats(&a)
 	r := Guard(f)
 	runtime.ReadMemStats(&b)
+	d := b.TotalAlloc - a.TotalAlloc
+	if what == "ua" {
+		d = uaAlloc
+	}
 	cls := "small"
 	// 256 KiB: twice the 128 KiB the model's counter is held to (Go copies a buffer once more
 	// when it converts it to a string)
-	if b.TotalAlloc-a.TotalAlloc > 262144 {
+	if d > 262144 {
 		cls = "big"
 	}
 	if r != "panic" && r != "err" && r != "bad-op" && !strings.HasPrefix(r, "harness-") {
@@ -752,7 +765,7 @@ func runOp(f []string) string {
 		if !ok {
 			return "bad-op"
 		}
-		return allocClass(func() string { return decode(a[0], b) })
+		return allocClass(a[0], func() string { return decode(a[0], b) })
 	}
 	if strings.HasSuffix(op, "-dec") {
 		if len(a) != 1 {
